@@ -20,7 +20,7 @@ fn leaf(prefix_bits: usize, tail: u8, base: u8) -> [u8; 32] {
     v
 }
 
-pub fn sets() -> Vec<(String, Vec<[u8; 32]>)> {
+pub fn sets(thorough: bool) -> Vec<(String, Vec<[u8; 32]>)> {
     let mut out: Vec<(String, Vec<[u8; 32]>)> = vec![("empty".into(), vec![]), ("single".into(), vec![[7; 32]])];
     for p in [0usize, 1, 7, 8, 9, 100, 254, 255] {
         // two leaves that agree on the first p bits and differ at bit p
@@ -34,6 +34,22 @@ pub fn sets() -> Vec<(String, Vec<[u8; 32]>)> {
     out.push(("nine-spread".into(), (0..9u8).map(|i| [i.wrapping_mul(29); 32]).collect()));
     out.push(("duplicates".into(), vec![[1; 32], [2; 32], [1; 32], [2; 32], [3; 32]]));
     out.push(("dense-low-bits".into(), (0..8u8).map(|i| { let mut v = [0u8; 32]; v[31] = i; v }).collect()));
+    if thorough {
+        // seeded random sets: sizes 2..40, leaves drawn with random shared prefixes
+        let mut rng = crate::rng::Rng::new(0xc12_5eed);
+        for k in 0..60 {
+            let n = 2 + (rng.next() % 39) as usize;
+            let mut v = vec![];
+            let base = [(rng.next() & 0xff) as u8; 32];
+            for _ in 0..n {
+                let mut l = base;
+                let keep = (rng.next() % 257) as usize;          // bits kept from the base
+                for i in keep..256 { if rng.next() & 1 == 1 { l[i / 8] ^= 0x80 >> (i % 8); } }
+                v.push(l);
+            }
+            out.push((format!("random-{k}"), v));
+        }
+    }
     out
 }
 
@@ -139,9 +155,9 @@ pub fn check_set(name: &str, leafs: &[[u8; 32]]) -> (u64, Vec<(String, String)>)
     (n, fails)
 }
 
-pub fn merkle_ground() -> EvalResult {
+pub fn merkle_ground(thorough: bool) -> EvalResult {
     let mut res = EvalResult { obligations: 0, discharged: 0, failures: vec![], samples: vec![], exhaustive: true };
-    let handles: Vec<_> = sets().into_iter().map(|(name, l)| std::thread::spawn(move || check_set(&name, &l))).collect();
+    let handles: Vec<_> = sets(thorough).into_iter().map(|(name, l)| std::thread::spawn(move || check_set(&name, &l))).collect();
     for h in handles {
         let (n, fails) = h.join().unwrap_or((0, vec![]));
         res.obligations += n;
@@ -155,14 +171,14 @@ pub fn merkle_ground() -> EvalResult {
             }
         }
     }
-    res.samples.push(json!({"obligation": format!("{} ground obligations over {} leaf sets (splits at bits 0..255, duplicates, dense low bits): root agreement, proof completeness, single-place proof corruptions", res.obligations, sets().len()), "backend": "native-eval"}));
+    res.samples.push(json!({"obligation": format!("{} ground obligations over {} leaf sets (splits at bits 0..255, duplicates, dense low bits): root agreement, proof completeness, single-place proof corruptions", res.obligations, sets(thorough).len()), "backend": "native-eval"}));
     res
 }
 
 pub fn replay_merkle(input: &Value) -> (bool, String) {
     let set = input["set"].as_str().unwrap_or("");
     let id = input["id"].as_str().unwrap_or("");
-    for (name, l) in sets() {
+    for (name, l) in sets(true) {
         if name == set {
             let (_, fails) = check_set(&name, &l);
             for (fid, m) in fails { if fid == id { return (true, format!("{fid}: {m}")); } }
